@@ -213,7 +213,7 @@ func runC20(c *h.Ctx) {
 	g.C.Datetime = true
 	g.C.HardErrs = false
 	dc := gen.DefaultDocCfg()
-	n := c.PerShard(c.N(60000, 2000000))
+	n := c.PerShard(c.N(600000, 6000000))
 	for i := 0; i < n; i++ {
 		ap := g.Path()
 		txt := gen.Spell(ap, nil)
